@@ -2,20 +2,28 @@
 #include "/include/vcommon.h"
 
 string oid = "?";
-mapping scripts = ([]);
 mapping handles = ([]);
 
-void create () { seteuid (getuid ()); }
+// create() runs again after reload_object(): the oid is recovered from the registry, `handles` stays reset
+void create () { seteuid (getuid ()); oid = "/vreg"->oid_of (this_object ()); }
 void set_oid (string s) { oid = s; "/vreg"->reg (s, this_object ()); }
-void set_script (string key, string ops) { scripts[key] = ops; }
+void set_script (string key, string ops) { "/c10/reg"->set_script (oid, key, ops); }
 
 mixed do_op (string s);
+
+// decimal -> 64-bit LPC int (to_int() goes through atoi and would cut the delay to 32 bits)
+int parse_int (string s) {
+  int i, v = 0, neg = 0;
+  if (strlen (s) && s[0] == '-') { neg = 1; i = 1; }
+  for (; i < strlen (s); i++) v = v * 10 + (s[i] - '0');
+  return neg ? -v : v;
+}
 
 // this_player() as an oid ("-" = 0 or destructed)
 string tp () { object p = this_player (); return objectp (p) ? "/vreg"->oid_of (p) : "-"; }
 
 void run (string key) {
-  string s = scripts[key];
+  string s = "/c10/reg"->get_script (oid, key);
   if (!stringp (s)) return;
   foreach (string op in explode (s, ";")) {
     do_op (op);
@@ -44,13 +52,13 @@ mixed do_op (string s) {
   int r;
   switch (w[0]) {
   case "co":   // co <f> <delay> <tag>
-    r = call_out ("co" + w[1], to_int (w[2]), w[3]);
+    r = call_out ("co" + w[1], parse_int (w[2]), w[3]);
     handles[w[3]] = r;
     VL (VNOW + " r co " + oid + " " + w[1] + " " + w[2] + " " + w[3] + " " + r + " " + tp ());
     break;
   case "cofp": { // cofp <f> <delay> <tag>: function-pointer call_out (cop->ob == 0 in call_out.c)
     function *fps = ({ (: co0 :), (: co1 :), (: co2 :), (: co3 :) });
-    r = call_out (fps[to_int (w[1])], to_int (w[2]), w[3]);
+    r = call_out (fps[to_int (w[1])], parse_int (w[2]), w[3]);
     handles[w[3]] = r;
     VL (VNOW + " r cofp " + oid + " " + w[1] + " " + w[2] + " " + w[3] + " " + r + " " + tp ());
     break;
@@ -79,6 +87,19 @@ mixed do_op (string s) {
     object o = "/vreg"->get (w[1]);
     if (o) destruct (o);
     VL (VNOW + " r dest " + oid + " " + w[1]);
+    break;
+  }
+  case "reload":  // remove_all_call_out (this_object ()) + variable reset + create ()
+    reload_object (this_object ());
+    VL (VNOW + " r reload " + oid);
+    break;
+  case "usage": { // print_call_out_usage through mud_status(): allocated structures, current length
+    string *t;
+    foreach (string l in explode (mud_status (0), "\n")) {
+      if (strsrch (l, "call out:") != 0) continue;
+      t = filter (explode (replace_string (replace_string (l, "\t", " "), ")", ""), " "), (: $1 != "" :));
+      VL (VNOW + " r usage " + t[2] + " " + t[6]);
+    }
     break;
   }
   case "err":
